@@ -6,6 +6,7 @@ on the same cases; direct predicates on the implementation's own observations.""
 import json
 import os
 import re
+import shutil
 import vf
 
 META = {
@@ -47,12 +48,12 @@ def hx(b):
 
 
 def cb(b):
-    """bytes -> Coq term of type `list N`: short ones literally, long ones as be_bytes len 0xHEX (one numeral instead of
-    a long list literal: elaboration of long list literals dominates otherwise)."""
+    """bytes -> Coq term of type `list N`.  Written as `hb [x0a; xff; ...]` (constructors of Coq.Init.Byte.byte mapped by
+    Byte.to_N inside vm_compute): a numeral costs ~1 ms to elaborate in Coq 8.16 (Number Notation), a constructor ~20 us."""
     b = bytes(b)
-    if len(b) <= 6:
-        return cb(b)
-    return "(be_bytes (N.to_nat %d) 0x%s)" % (len(b), b.hex())
+    if not b:
+        return "[]"
+    return "(hb [%s])" % ";".join("x%02x" % x for x in b)
 
 
 def u64(ts):
@@ -70,6 +71,23 @@ def parse_lists(out):
         body = m.group(2)
         res[m.group(1)] = [] if body in ("nil", "[]") else [int(x) for x in re.findall(r"\d+", body)]
     return res
+
+
+def coq_eval(ctx, name, text, timeout=1500):
+    """ctx.coq_eval without the .glob file (one glob entry per byte constructor: ~100 MB per shard) and without keeping
+    the compiled case file."""
+    d = os.path.join(ctx.workdir, "coq")
+    os.makedirs(d, exist_ok=True)
+    p = os.path.join(d, name + ".v")
+    with open(p, "w") as f:
+        f.write(text)
+    rc, out = vf.sh(["coqc", "-noglob"] + ctx.coq_flags() + ["-Q", d, "Cases_" + ctx.id, p], cwd=d, timeout=timeout)
+    for ext in (".vo", ".vok", ".vos", ".glob"):
+        try:
+            os.remove(os.path.join(d, name + ext))
+        except OSError:
+            pass
+    return rc, out
 
 
 def run_engine(ctx, binp, test, cases, name, cwd_env=None):
@@ -219,6 +237,8 @@ def gen_hs(ctx):
 
     def flip(h, i=None):
         b = bytearray(bytes.fromhex(h))
+        if not b:
+            return "01"
         i = rng.randrange(len(b)) if i is None else i
         b[i] ^= 1 << rng.randrange(8)
         return hx(b)
@@ -317,6 +337,43 @@ def gen_hs(ctx):
         s2 = dict(s)
         s2["genesis"] = "0103"
         cases.append({"hs": hs, "mode": "check", "local": l2, "status": s2, "_mut": "genesis"})
+    return cases
+
+
+def gen_inbound_frames(ctx, real_max):
+    """Frame-level variations of the inbound stream: the status that every handshaker accepts, carried in a frame of another
+    sub-protocol, truncated at chosen offsets, replaced by an oversized / short / empty stream."""
+    rng = ctx.rng
+    chain = {"v": 3, "pub": True, "main": True, "magic": "aergo.io", "cons": "dpos"}
+    gen, peer = hx(rng.randbytes(32)), hx(rng.randbytes(38))
+    local = {"chain": chain, "v0": 2, "v1": 3, "fork": 1000, "genesis": gen, "peer": peer}
+    cases = []
+    for hs in (31, 32, 33, 200):
+        mode = "recv" if hs == 200 else "inbound"
+
+        def mk(empty_status=False, **kw):
+            st = {"chain": dict(chain), "chain_raw": "", "best_hash": hx(rng.randbytes(32)), "height": 5000, "addr": "192.168.1.10",
+                  "nil_sender": False, "peer": peer, "genesis": gen, "role": 1, "producers": [], "bad_cert": False}
+            if empty_status:    # what an empty protobuf payload decodes to
+                st = {"chain": None, "chain_raw": "", "best_hash": "", "height": 0, "addr": "", "nil_sender": True, "peer": "", "genesis": "",
+                      "role": 0, "producers": [], "bad_cert": False}
+            c = {"hs": hs, "mode": mode, "local": local, "status": st, "_mut": "frame:" + ",".join("%s" % k for k in kw) if kw else "frame:none",
+                 "_frame": True}
+            c.update(kw)
+            cases.append(c)
+        mk()
+        for sp in (2, 3, 4, 5, 0x10, 0x16, 0x30, 0x3101, 0xffffffff):
+            mk(frame_proto=sp)
+        for keep in (1, 47, 48, 49, 60):
+            mk(keep=keep)
+        for cut in (1, 2, rng.randrange(3, 40)):
+            mk(cut=cut)
+        mk(raw_stream="-")
+        mk(raw_stream=hx(header_bytes(1, real_max + 1, 1, b"\x01" * 16, b"\x02" * 16) + rng.randbytes(64)))
+        mk(raw_stream=hx(header_bytes(1, 2 ** 32 - 1, 1, b"\x01" * 16, b"\x02" * 16)))
+        mk(raw_stream=hx(header_bytes(1, 10, 1, b"\x01" * 16, b"\x02" * 16) + rng.randbytes(9)))
+        mk(empty_status=True, raw_stream=hx(header_bytes(1, 0, 1, b"\x01" * 16, b"\x02" * 16)))          # empty status payload
+        mk(raw_stream=hx(header_bytes(1, 5, 1, b"\x01" * 16, b"\x02" * 16) + b"\xff\xff\xff\xff\xff"))   # not a protobuf Status
     return cases
 
 
@@ -435,25 +492,7 @@ def run(ctx):
     for (c, kind, wi), o in zip(R, RO):
         mx = o["max"]
         dist["read:%s:%s" % (kind, ["ok", "hdr", "big", "payload", "panic"][o["cls"]])] = dist.get("read:%s:%s" % (kind, ["ok", "hdr", "big", "payload", "panic"][o["cls"]]), 0) + 1
-        # ---- direct predicates
-        if o["cls"] == 4:
-            pred_fail.append(("C18:read-panic", "ReadMsg panicked on a byte stream", {"case": c, "obs": o}))
-        if o["alloc"] > alloc_cap(mx):
-            pred_fail.append(("C18:read-alloc", "ReadMsg allocated %d bytes with MaxPayloadLength=%d" % (o["alloc"], mx), {"case": c, "obs": o}))
-        if kind == "oversize" and o["cls"] != 2:
-            pred_fail.append(("C18:read-oversize", "header announcing more than the maximum was not refused as too big", {"case": c, "obs": o}))
-        if kind == "trunc" and o["cls"] not in (1, 3):
-            pred_fail.append(("C18:read-truncated", "a strict prefix of a written frame did not fail with a header/payload error", {"case": c, "obs": o}))
-        if kind == "rt":
-            wc = W[wi]
-            fb = bytes.fromhex(WO[wi]["bytes"])
-            st = bytes.fromhex(c["stream"])
-            ok = (o["cls"] == 0 and o["proto"] == wc["proto"] and o["ts"] == wc["ts"] and o["id"] == wc["id"] and o["orig"] == wc["orig"]
-                  and o["payload"] == wc["payload"] and o["len"] == len(wc["payload"]) // 2 and o["rest"] == hx(st[len(fb):]))
-            if not ok:
-                pred_fail.append(("C18:roundtrip", "a message written by WriteMsg was not read back identically by ReadMsg", {"written": wc, "frame": WO[wi]["bytes"], "case": c, "obs": o}))
-        if o["cls"] == 0 and o["paylen"] > mx:
-            pred_fail.append(("C18:read-big-accepted", "ReadMsg returned a payload above MaxPayloadLength", {"case": c, "obs": o}))
+        pred_fail += read_predicates(c, kind, wi, o, W, WO)
         # ---- model items
         if c["op"] == "read":
             if o["cls"] == 0:
@@ -470,7 +509,7 @@ def run(ctx):
                 pred_fail.append(("C18:roundtrip", "large frame: payload/rest not returned intact", {"case": c, "obs": o}))
 
     # ================================================================= handshake
-    HS = gen_hs(ctx) + corpus.get("handshakes", [])
+    HS = gen_hs(ctx) + corpus.get("handshakes", []) + gen_inbound_frames(ctx, real_max)
     hs030 = [c for c in HS if c["hs"] != 200]
     hs200 = [c for c in HS if c["hs"] == 200]
     rc, log, O030 = run_engine(ctx, b030, "TestVerifC18HS030Engine", hs030, "hs030")
@@ -480,15 +519,30 @@ def run(ctx):
     if rc != 0 or len(O200) != len(hs200):
         raise RuntimeError("v200 handshake engine failed rc=%s obs=%d/%d:\n%s" % (rc, len(O200), len(hs200), log[-3000:]))
     hitems, hcases = [], []
+    fitems, fcases, mcases = [], [], []
     f20 = {}
     for c, o in list(zip(hs030, O030)) + list(zip(hs200, O200)):
         l, s = c["local"], c["status"]
         ver, loc, st = coq_hs_case(c, o)
         cls = o["cls"]
-        if c["mode"] != "check" and cls != 0:
-            cls = 1000    # through frames: only accepted / refused is compared
-        hitems.append("(%d, %s, %s, %d)" % (ver, loc, st, cls))
+        if c.get("_frame"):
+            # frame-level case: the whole inbound path against P2P/Inbound.v; the payload either decodes to the case's status
+            # (real protobuf) or not at all (cls 23 observed -> decoder None)
+            fitems.append("(%d, %s, %s, %s, %d, %d)" % (ver, loc, st, cb(bytes.fromhex(o["stream"])), o["maxlen"], cls))
+            fcases.append((c, o))
+        else:
+            if c["mode"] != "check" and cls != 0:
+                cls = 1000    # through frames: only accepted / refused is compared
+            hitems.append("(%d, %s, %s, %d)" % (ver, loc, st, cls))
+            mcases.append((c, o))
         hcases.append((c, o))
+        if c.get("_frame"):
+            dist["hs%d:frame:%s" % (c["hs"], {20: "read error", 21: "unexpected sub-protocol", 22: "goaway received", 23: "malformed status"}.get(o["cls"], GOAWAY_CLS.get(o["cls"], "other(%d)" % o["cls"])))] = dist.get("hs%d:frame:%s" % (c["hs"], {20: "read error", 21: "unexpected sub-protocol", 22: "goaway received", 23: "malformed status"}.get(o["cls"], GOAWAY_CLS.get(o["cls"], "other(%d)" % o["cls"]))), 0) + 1
+            if o["panic"]:
+                pred_fail.append(("C18:handshake-panic", "handshaker panicked on an inbound byte stream", {"case": c, "obs": o}))
+            if o["accepted"] and (c.get("frame_proto", 0) not in (0, 1) or c.get("keep") or c.get("cut") or c.get("raw_stream")):
+                pred_fail.append(("C18:handshake-bad-frame", "handshake completed although the first frame is not a complete StatusRequest", {"case": c, "obs": o}))
+            continue
         dist["hs%d:%s:%s" % (c["hs"], c["mode"], GOAWAY_CLS.get(o["cls"], "other(%d)" % o["cls"]))] = dist.get("hs%d:%s:%s" % (c["hs"], c["mode"], GOAWAY_CLS.get(o["cls"], "other(%d)" % o["cls"])), 0) + 1
         # ---- direct predicates
         if o["panic"]:
@@ -518,6 +572,9 @@ def run(ctx):
                 pred_fail.append(("C18:handshake-best-hash", "2.0.0 handshake accepted a best block hash that is not 32 bytes", {"case": c, "obs": o}))
         elif c["hs"] == 32 and o["cls"] == 6 and c["_mut"] == "genesis":
             f20.setdefault("v032_refuses", (c, o))
+    if vers["vers"] and vers["vers"][0] != max(vers["vers"]):
+        pred_fail.append(("C18:negotiation-order", "AcceptedInboundVersions does not start with its best version: a peer offering every accepted version is "
+                          "given %#x instead of %#x" % (vers["vers"][0], max(vers["vers"])), {"requested": vers["vers"], "chosen": vers["vers"][0]}))
     v031_negotiable = 0x301 in vers["vers"]
     if "v031_accepts" in f20 and v031_negotiable:
         c, o = f20["v031_accepts"]
@@ -553,9 +610,60 @@ def run(ctx):
         if o["block_id"][:len(o["block_hash"])] != o["block_hash"][:64]:
             pred_fail.append(("C18:blockid-differs", "BlockID() is not BlockHash()", {"case": c, "obs": o}))
 
+    # ================================================================= thorough: chain-level F8, real FindBestP2PVersion
+    chain_obs, neg_cases, neg_obs = [], [], []
+    deep = (not quick) or os.environ.get("VERIF_C18_DEEP") == "1"
+    if deep:
+        rc, log, bchain = ctx.go_test_binary("chain", [os.path.join(E, "zz_verif_c18_chainf8_engine_test.go")], "chain.test", use_overlay=True)
+        if rc != 0:
+            raise RuntimeError("chain F8 engine build failed:\n" + log[-3000:])
+        rc, log, chain_obs = run_engine(ctx, bchain, "TestVerifC18ChainF8Engine", [], "chainf8")
+        if rc != 0 or len(chain_obs) != 3:
+            raise RuntimeError("chain F8 engine failed rc=%s obs=%d:\n%s" % (rc, len(chain_obs), log[-3000:]))
+        for o in chain_obs:
+            dist["chain:" + o["scenario"]] = 1
+            if o["scenario"] == "forged" and (o["stored_under_announced"] and not o["stored_under_digest"]) and o["announced"] != o["digest"]:
+                pred_fail.append(("C18:F8-blockhash-trusts-field",
+                                  "ChainService.addBlock stores a block with a forged Hash field under the forged identifier only", {"obs": o}))
+            if o["scenario"] == "poison" and o["genuine_err"]:
+                pred_fail.append(("C18:F8-blockhash-trusts-field",
+                                  "an altered block announcing the genuine identifier makes ChainService.addBlock reject the genuine block: " + o["genuine_err"], {"obs": o}))
+            if o["scenario"] == "control" and not (o["add_err"] == "" and o["stored_under_digest"]):
+                pred_fail.append(("C18:chain-control", "a genuine block with an empty Hash field was not stored under the digest of its header", {"obs": o}))
+        rc, log, bp2p = ctx.go_test_binary("p2p", [os.path.join(E, "zz_verif_c18_negotiate_engine_test.go")], "p2p.test", use_overlay=True)
+        if rc != 0:
+            raise RuntimeError("negotiate engine build failed:\n" + log[-3000:])
+        rundir = os.path.join(ctx.workdir, "p2prun")      # the package's own test init() loads ./test/sample/sample.key
+        os.makedirs(os.path.join(rundir, "test", "sample"), exist_ok=True)
+        for f in ("sample.key", "sample.pub", "sample.id"):
+            if os.path.exists(os.path.join(ctx.repo, "p2p/test/sample", f)):
+                shutil.copy(os.path.join(ctx.repo, "p2p/test/sample", f), os.path.join(rundir, "test", "sample", f))
+        pool = [0x301, 0x302, 0x303, 0x20000, 0x300, 0x304, 0x10000, 0, 5, 0x20001]
+        neg_cases = [[], [0x301], [0x302], [0x303], [0x20000], [0x300], [0x301, 0x302], [0x302, 0x301], [0x301, 0x20000], [0x300, 0x304]]
+        for _ in range(300):
+            neg_cases.append([rng.choice(pool) for _ in range(rng.randrange(0, 7))])
+        fin, fout = os.path.join(ctx.workdir, "neg.in"), os.path.join(ctx.workdir, "neg.out")
+        with open(fin, "w") as f:
+            for c in neg_cases:
+                f.write(json.dumps(c) + "\n")
+        env = ctx.goenv()
+        env.update({"VERIF_IN": fin, "VERIF_OUT": fout})
+        rc, log = vf.sh([bp2p, "-test.run", "TestVerifC18NegotiateEngine"], cwd=rundir, env=env, timeout=600)
+        if rc != 0:
+            raise RuntimeError("negotiate engine failed:\n" + log[-3000:])
+        neg_obs = [int(x) for x in open(fout).read().split()]
+        if len(neg_obs) != len(neg_cases):
+            raise RuntimeError("negotiate engine: %d observations for %d cases" % (len(neg_obs), len(neg_cases)))
+        for c, v in zip(neg_cases, neg_obs):
+            exp = next((a for a in vers["vers"] if a in c), 0)     # direct predicate: first accepted version the peer requested
+            if v != exp:
+                pred_fail.append(("C18:negotiation", "FindBestP2PVersion did not pick the first accepted version requested", {"requested": c, "chosen": v}))
+        dist["negotiate"] = len(neg_cases)
+
     # ================================================================= model evaluation
-    head = ["From Coq Require Import NArith List Bool.", "From Verif Require Import Common.Bytes Codec.ChainId P2P.Frame P2P.Handshake P2P.BlockId.",
+    head = ["From Coq Require Import NArith List Bool Strings.Byte.", "From Verif Require Import Common.Bytes Codec.ChainId P2P.Frame P2P.Handshake P2P.BlockId.",
             "Import ListNotations.", "Open Scope N_scope.",
+            "Definition hb (l : list byte) : bytes := map Byte.to_N l.",
             "Definition dummy_msg := mk_msg 0 0 0 [] [] [].",
             "Definition alloc_ok (a obs : N) : bool := (a <=? obs) && (obs <=? a + a / 8 + 16384).",
             "Definition rd_ok (c : (N * bytes * N * msg * bytes) * N) : bool := read_case_ok (fst c).",
@@ -590,8 +698,47 @@ def run(ctx):
         shards.append(("hs%d" % (k // HSH), "hs", k, head + hs_def + [
             "Definition hcases := [%s]." % ";\n".join(hitems[k:k + HSH]),
             "Definition MH := Eval vm_compute in mismatches_from hs_ok hcases 0.", "Print MH."]))
+    inb_def = ["From Verif Require Import P2P.Inbound.",
+               "Definition in_class (r : inbound_result) : N :=",
+               "  match r with InOk _ _ _ => 0 | InRefusedStatus _ e => err_class (Some e) | InMalformedStatus => 23",
+               "  | InNotStatus (RecvReadError _) => 20 | InNotStatus RecvUnexpected => 21 | InNotStatus RecvGoAway => 22",
+               "  | InNotStatus (RecvStatus _ _) => 99 | InNoVersion => 98 end.",
+               "Definition inb_ok (c : N * local * status * bytes * N * N) : bool :=",
+               "  let '(v, l, st, s, mx, cls) := c in",
+               "  let dec := if cls =? 23 then (fun _ : bytes => None) else (fun _ : bytes => Some st) in",
+               "  in_class (inbound dec mx l [v] s) =? cls."]
+    if fitems:
+        shards.append(("inb", "inb", 0, head + inb_def + [
+            "Definition fcases := [%s]." % ";\n".join(fitems),
+            "Definition MI := Eval vm_compute in mismatches_from inb_ok fcases 0.", "Print MI."]))
+    if deep:
+        B = lambda x: "true" if x else "false"
+        citems = []
+        for o in chain_obs:
+            kind = {"forged": 0, "poison": 1, "control": 2}[o["scenario"]]
+            citems.append("(%d, %s, %s, (%s, %s, %s), (%s, %s))" % (
+                kind, cb(bytes.fromhex(o["digest"])), cb(bytes.fromhex(o["announced"])), B(o["add_err"] == ""), B(o["stored_under_announced"]),
+                B(o["stored_under_digest"]), B("errored blocks cache" in o["genuine_err"]), B(o["genuine_stored"])))
+        nitems = ["([%s], %d)" % (";".join(str(x) for x in c), v) for c, v in zip(neg_cases, neg_obs)]
+        shards.append(("chain", "chain", 0, head + [
+            "Definition present (id : bytes) (st : store) : bool := match id with [] => false | _ => match lookup id (s_blocks st) with Some _ => true | None => false end end.",
+            "Definition chain_ok (c : N * bytes * bytes * (bool * bool * bool) * (bool * bool)) : bool :=",
+            "  let '(kind, digest, announced, (add_ok, under_ann, under_dig), (gen_cached, gen_stored)) := c in",
+            "  let H := fun _ : bytes => digest in",
+            "  let valid := fun b : block => bytes_eqb (b_header b) [0] in      (* header [0] genuine, [1] altered *)",
+            "  let blk := mk_block announced (if kind =? 1 then [1] else [0]) in",
+            "  let '(st1, r1) := add_block H valid empty_store blk in",
+            "  Bool.eqb add_ok (match r1 with Added => true | _ => false end) &&",
+            "  (if kind =? 1 then true else Bool.eqb under_ann (present announced st1) && Bool.eqb under_dig (present digest st1)) &&",
+            "  (if kind =? 1 then let '(st2, r2) := add_block H valid st1 (mk_block [] [0]) in",
+            "     Bool.eqb gen_cached (match r2 with ErrCached => true | _ => false end) && Bool.eqb gen_stored (present digest st2)",
+            "   else true).",
+            "Definition ccases := [%s]." % ";\n".join(citems),
+            "Definition MC := Eval vm_compute in mismatches_from chain_ok ccases 0.", "Print MC.",
+            "Definition ncases : list (list N * N) := [%s]." % ";\n".join(nitems),
+            "Definition MN := Eval vm_compute in mismatches_from negotiate_case_ok ncases 0.", "Print MN."]))
     for name, kind, off, txt in shards:
-        rc, out = ctx.coq_eval(name, "\n".join(txt))
+        rc, out = coq_eval(ctx, name, "\n".join(txt))
         if rc != 0:
             corr.append(("model evaluation failed (%s)" % name, out[-2000:]))
             continue
@@ -604,6 +751,19 @@ def run(ctx):
                 corr.append(("ReadMsg and read_msg differ (class / decoded fields / rest)", [dict(case=rcases[off + i][0], obs=rcases[off + i][1]) for i in res["MR"][:5]]))
             if res["MA"]:
                 corr.append(("measured allocation of ReadMsg outside [alloc, alloc*9/8+16K] of the model", [dict(case=rcases[off + i][0], obs=rcases[off + i][1]) for i in res["MA"][:5]]))
+        elif kind == "inb":
+            if "MI" not in res:
+                corr.append(("model evaluation unparsable (%s)" % name, out[-1000:]))
+            elif res["MI"]:
+                corr.append(("inbound handshake over a byte stream and P2P/Inbound.v differ", [dict(case=fcases[i][0], obs=fcases[i][1]) for i in res["MI"][:5]]))
+        elif kind == "chain":
+            if "MC" not in res or "MN" not in res:
+                corr.append(("model evaluation unparsable (%s)" % name, out[-1000:]))
+            else:
+                if res["MC"]:
+                    corr.append(("ChainService.addBlock and add_block differ", [chain_obs[i] for i in res["MC"][:5]]))
+                if res["MN"]:
+                    corr.append(("FindBestP2PVersion and find_best_version differ", [dict(requested=neg_cases[i], chosen=neg_obs[i]) for i in res["MN"][:5]]))
         elif kind == "misc":
             for key in ("MW", "MB", "MK", "MV"):
                 if key not in res:
@@ -620,10 +780,10 @@ def run(ctx):
             if "MH" not in res:
                 corr.append(("model evaluation unparsable (%s)" % name, out[-1000:]))
             elif res["MH"]:
-                corr.append(("checkRemoteStatus and the model differ", [dict(case=hcases[off + i][0], obs=hcases[off + i][1]) for i in res["MH"][:5]]))
+                corr.append(("checkRemoteStatus and the model differ", [dict(case=mcases[off + i][0], obs=mcases[off + i][1]) for i in res["MH"][:5]]))
 
     # ================================================================= evidence
-    evals = len(W) + len(R) + len(HS) + len(BC)
+    evals = len(W) + len(R) + len(HS) + len(BC) + len(chain_obs) + len(neg_cases)
     ctx.cov["evaluations"] = evals
     ctx.cov["traces_validated_against_impl"] = evals
     nontriv = set()
@@ -655,10 +815,54 @@ def run(ctx):
         seen.add(key)
         if ctx.finding(key, what, replay):
             new_fail = True
+    if (corr or not pr["ok"]) and not new_fail:
+        # directed search for a failing input before reporting a correspondence / proof break without one: more streams of
+        # the framing kinds (the bulk of the input space), direct predicates only
+        class _T:
+            pass
+        t = _T()
+        t.rng, t.tier = rng, "thorough"
+        extra = gen_reads(t, W, WO)
+        rc, log, XO = run_engine(ctx, b030, "TestVerifC18FrameEngine", [r[0] for r in extra], "frame_search")
+        found = []
+        for (c, kind, wi), o in zip(extra, XO):
+            found += read_predicates(c, kind, wi, o, W, WO)
+        ctx.notes.append("search after correspondence/proof break: %d extra streams, %d predicate failures" % (len(XO), len(found)))
+        seen2 = set()
+        for key, what, replay in found:
+            if key not in seen2:
+                seen2.add(key)
+                if ctx.finding(key, what, replay):
+                    new_fail = True
     if not pr["ok"] and not new_fail:
         ctx.violation("proof obligation no longer checks: %s" % pr["broken"], {"theorem_or_file": pr["broken"], "log": pr["log"][-3000:]}, no_input=True)
     if corr and not new_fail:
         ctx.violation("correspondence broken: " + corr[0][0], {"correspondence": [c[0] for c in corr], "cases": corr[0][1]}, no_input=True)
+
+
+def read_predicates(c, kind, wi, o, W, WO):
+    """Direct predicates on one ReadMsg observation (independent of the model)."""
+    pred_fail = []
+    mx = o["max"]
+    if o["cls"] == 4:
+        pred_fail.append(("C18:read-panic", "ReadMsg panicked on a byte stream", {"case": c, "obs": o}))
+    if o["alloc"] > alloc_cap(mx):
+        pred_fail.append(("C18:read-alloc", "ReadMsg allocated %d bytes with MaxPayloadLength=%d" % (o["alloc"], mx), {"case": c, "obs": o}))
+    if kind == "oversize" and o["cls"] != 2:
+        pred_fail.append(("C18:read-oversize", "header announcing more than the maximum was not refused as too big", {"case": c, "obs": o}))
+    if kind == "trunc" and o["cls"] not in (1, 3):
+        pred_fail.append(("C18:read-truncated", "a strict prefix of a written frame did not fail with a header/payload error", {"case": c, "obs": o}))
+    if kind == "rt":
+        wc = W[wi]
+        fb = bytes.fromhex(WO[wi]["bytes"])
+        st = bytes.fromhex(c["stream"])
+        ok = (o["cls"] == 0 and o["proto"] == wc["proto"] and o["ts"] == wc["ts"] and o["id"] == wc["id"] and o["orig"] == wc["orig"]
+              and o["payload"] == wc["payload"] and o["len"] == len(wc["payload"]) // 2 and o["rest"] == hx(st[len(fb):]))
+        if not ok:
+            pred_fail.append(("C18:roundtrip", "a message written by WriteMsg was not read back identically by ReadMsg", {"written": wc, "frame": WO[wi]["bytes"], "case": c, "obs": o}))
+    if o["cls"] == 0 and o["paylen"] > mx:
+        pred_fail.append(("C18:read-big-accepted", "ReadMsg returned a payload above MaxPayloadLength", {"case": c, "obs": o}))
+    return pred_fail
 
 
 def alloc_cap(mx):
